@@ -9,10 +9,74 @@ import ast
 
 from .. import align
 from ..astutil import (u, atoms, guard_map, path_atoms, stmts_in, calls_in, callee, callee_attr, reaching_def, def_value,
-                       PARAM, AMBIGUOUS, get_arg, get_kw, is_none, is_const, raised_name, block_path)
+                       PARAM, AMBIGUOUS, get_arg, get_kw, is_none, is_const, raised_name, block_path, assigns_to, binds, binds_deep)
 from ..report import Undecided
 
 D = 'gambit.cli.dist.dist_cmd'
+
+
+_NEG = {'is': 'isnot', 'isnot': 'is', 'true': 'false', 'false': 'true', 'eq': 'ne', 'ne': 'eq', 'in': 'notin', 'notin': 'in'}
+
+
+def _negated(a):
+    if a[0] in _NEG:
+        return (_NEG[a[0]],) + tuple(a[1:])
+    if a[0] in ('lt', 'le'):
+        return ('le' if a[0] == 'lt' else 'lt', a[2], a[1])
+    return None
+
+
+def _alternatives(t, pol):
+    """The alternatives of a guard that is a disjunction under this polarity: [atom set | None (not a conjunction of atoms)]."""
+    if isinstance(t, ast.UnaryOp) and isinstance(t.op, ast.Not):
+        return _alternatives(t.operand, not pol)
+    if isinstance(t, ast.BoolOp) and isinstance(t.op, ast.Or if pol else ast.And):
+        return [atoms(v, pol) for v in t.values]
+    return None
+
+
+def implied_atoms(guards):
+    """path_atoms plus elimination: of a disjunction known to hold, the only alternative the other facts do not refute holds
+    (`if a is not None or b:` ... `if a is None:` => b)."""
+    facts = set(path_atoms(guards))
+    pending = [alts for alts in (_alternatives(t, p) for t, p in guards if atoms(t, p) is None) if alts]
+    changed = True
+    while changed:
+        changed = False
+        for alts in pending:
+            live = [a for a in alts if a is None or not any(_negated(x) in facts for x in a)]
+            if len(live) == 1 and live[0] is not None and not live[0] <= facts:
+                facts |= live[0]
+                changed = True
+    return facts
+
+
+def comes_after(fn, s, x):
+    """Can statement x execute after statement s on one path?  False for an earlier statement and for the other arm of the same `if`."""
+    ps, px = block_path(fn, s), block_path(fn, x)
+    if ps is None or px is None or x is s:
+        return False
+    for d, ((bs, i_s, owner), (bx, i_x, _)) in enumerate(zip(ps, px)):
+        if bs is not bx:
+            # same compound statement, different blocks: the two arms of an `if` exclude each other; anything else (try/handler,
+            # loop/else) is taken as sequential
+            return not isinstance(owner, ast.If)
+        if isinstance(owner, (ast.For, ast.While)):
+            return True
+        if i_s != i_x:
+            return i_x > i_s
+    return False
+
+
+def none_guarded_rebinding(fn, s, x, name):
+    """x rebinds `name` inside an `if name is None:` arm whose test is evaluated after s (infeasible once `name.attr` was read at s)."""
+    path = block_path(fn, x)
+    for (block, idx, owner) in path:
+        if isinstance(owner, ast.If) and comes_after(fn, s, owner):
+            at = atoms(owner.test, block is owner.body)
+            if at and ('is', 'None', name) in at and not any(binds(y, name) or binds_deep(y, name) for y in block[:idx]):
+                return True
+    return False
 
 
 def check(ctx):
@@ -30,24 +94,70 @@ def check(ctx):
     dumps = [c for c in calls_in(fn) if m.resolve_call(fi, c) == 'gambit.cluster.dump_dmat_csv']
     rep.require(len(dumps) == 1, 'dist_cmd: expected one dump_dmat_csv call')
     dc = dumps[0]
-    dst = next(s for s in fn.body if any(x is dc for x in ast.walk(s)))
     out_a, dmat_a, rows_a, cols_a = (get_arg(dc, i, n) for i, n in enumerate(['file', 'dmat', 'row_ids', 'col_ids']))
+    rep.require(all(isinstance(a, ast.AST) for a in (out_a, dmat_a, rows_a, cols_a)), 'dist_cmd: dump_dmat_csv is not called with explicit file / matrix / row ids / column ids')
     mats = [c for c in calls_in(fn) if m.resolve_call(fi, c) == 'gambit.metric.jaccarddist_matrix']
     pairs = [c for c in calls_in(fn) if m.resolve_call(fi, c) == 'gambit.metric.jaccarddist_pairwise']
     rep.require(len(mats) == 1 and len(pairs) == 1, 'dist_cmd: expected one matrix and one pairwise call')
     mc, pc = mats[0], pairs[0]
-    mst = next(s for s in stmts_in(fn.body) if isinstance(s, ast.Assign) and s.value is mc)
-    pst = next(s for s in stmts_in(fn.body) if isinstance(s, ast.Assign) and s.value is pc)
+
+    def holder(call, what):
+        """(assignment holding the call's result, conditions inside that statement): the value of the assignment is the call itself or
+        a conditional expression with the call as one arm (the arm's test then belongs to the path condition)."""
+        st = next((s_ for s_ in stmts_in(fn.body) if isinstance(s_, ast.Assign) and any(x is call for x in ast.walk(s_.value))), None)
+        rep.require(st is not None and len(st.targets) == 1 and isinstance(st.targets[0], ast.Name), f'dist_cmd: the result of {what} is not assigned to a variable')
+        inner, e = [], st.value
+        while isinstance(e, ast.IfExp):
+            if any(x is call for x in ast.walk(e.body)):
+                inner.append((e.test, True))
+                e = e.body
+            elif any(x is call for x in ast.walk(e.orelse)):
+                inner.append((e.test, False))
+                e = e.orelse
+            else:
+                break
+        rep.require(e is call, f'dist_cmd: the result of {what} is transformed before it is assigned ({u(st)[:80]})')
+        return st, tuple(inner)
+    (mst, m_in), (pst, p_in) = holder(mc, 'jaccarddist_matrix'), holder(pc, 'jaccarddist_pairwise')
+    rep.require(len(mc.args) >= 2 and len(pc.args) >= 1, 'dist_cmd: matrix / pairwise operands are not positional')
     q_sigs, r_sigs = u(mc.args[0]), u(mc.args[1])
     rep.add('G2', fi.site(dc), 'the written matrix is the one just computed (either mode)', u(mst.targets[0]) == u(pst.targets[0]) == u(dmat_a), expected=f'{u(dmat_a)} from both branches', found=(u(mst.targets[0]), u(pst.targets[0])), stmt='matrix variable')
-    atm, atp = path_atoms(gm[mst]), path_atoms(gm[pst])
+    atm, atp = path_atoms(gm[mst] + m_in), path_atoms(gm[pst] + p_in)
     rep.add('G2', fi.site(pst), 'square mode computes all pairs of the queries, as a full (non-flat) matrix', ('true', 'square') in atp and u(pc.args[0]) == q_sigs and get_kw(pc, 'flat') is None and len(pc.args) == 1,
             expected=f'jaccarddist_pairwise({q_sigs}) under square', found=(u(pc)[:60], sorted(atp)), stmt='square mode')
-    rep.add('G2', fi.site(mst), 'otherwise rows are the queries and columns the references', ('false', 'square') in atm and q_sigs.startswith('query') and r_sigs.startswith('ref') and get_kw(mc, 'ref_indices') is None,
-            expected='jaccarddist_matrix(query_sigs, ref_sigs) under not square', found=(u(mc)[:60], sorted(atm)), stmt='matrix mode')
+    # which signature-file option each matrix operand is loaded from (directly, through a copy, or through a loading helper whose
+    # first argument is the option)
+    def load_options(name, depth=0):
+        out = set()
+        for d_ in assigns_to(fn, name):
+            v_ = def_value(d_)
+            if isinstance(v_, ast.Name) and depth < 4:
+                out |= load_options(v_.id, depth + 1)
+            elif isinstance(v_, ast.Call) and v_.args and ((m.resolve_call(fi, v_) or '').endswith('load_signatures') or (depth == 0 and u(v_.args[0]) in ('qs', 'rs'))):
+                out.add(u(v_.args[0]))
+        return out
+    loads = {v_: sorted(load_options(v_)) for v_ in (q_sigs, r_sigs)}
+    rep.require(loads[q_sigs] and loads[r_sigs], 'dist_cmd: cannot find where the signature-file options are loaded')
+    rep.add('G2', fi.site(mst), 'otherwise rows are the queries and columns the references', ('false', 'square') in atm and loads[q_sigs] == ['qs'] and loads[r_sigs] == ['rs'] and get_kw(mc, 'ref_indices') is None,
+            expected='jaccarddist_matrix(<signatures of --qs / query files>, <signatures of --rs / --use-db / reference files>) under not square', found=(u(mc)[:60], sorted(atm), loads), stmt='matrix mode')
     q_ids, r_ids = u(rows_a), u(cols_a)
-    rep.add('G2', fi.site(dc), 'row labels are the query ids and column labels the reference ids (same orientation as the matrix operands)', q_ids.startswith('query') and r_ids.startswith('ref') and u(out_a) == 'output',
-            expected='dump_dmat_csv(output, dmat, query_ids, ref_ids)', found=u(dc), stmt='label orientation')
+
+    def label_sides(var):
+        """Which side(s) the definitions of a label variable are read from: the stored ids of a matrix operand, or the file ids of a
+        get_sequence_files call on one side's options."""
+        out = set()
+        for d_ in assigns_to(fn, var):
+            v_ = d_.value if isinstance(d_, ast.Assign) else None
+            if isinstance(v_, ast.Attribute) and v_.attr == 'ids' and u(v_.value) in (q_sigs, r_sigs):
+                out.add('query' if u(v_.value) == q_sigs else 'ref')
+            elif isinstance(v_, ast.Call) and m.resolve_call(fi, v_) == 'gambit.cli.common.get_sequence_files':
+                a_ = [u(x) for x in v_.args]
+                out.add('query' if a_ == ['q', 'ql', 'qdir'] else 'ref' if a_ == ['r', 'rl', 'rdir'] else f'files({", ".join(a_)})')
+        return out
+    rows_from, cols_from = label_sides(q_ids), label_sides(r_ids)
+    rep.add('G2', fi.site(dc), 'row labels are the query ids and column labels the reference ids (same orientation as the matrix operands)',
+            q_ids != r_ids and 'query' in rows_from and 'ref' not in rows_from and 'ref' in cols_from and 'query' not in cols_from and u(out_a) == 'output',
+            expected='dump_dmat_csv(output, dmat, <ids of the first operand>, <ids of the second operand>)', found=(u(dc), dict(rows=sorted(rows_from), cols=sorted(cols_from))), stmt='label orientation')
     # ---- G1: per side, ids and sigs/files defined together in each branch
     def files_var(ids):
         for s_ in stmts_in(fn.body):
@@ -55,8 +165,26 @@ def check(ctx):
                 return u(s_.targets[0].elts[1])
         return f'{ids}:files?'
     sides = {'query': (q_ids, q_sigs, files_var(q_ids)), 'ref': (r_ids, r_sigs, files_var(r_ids))}
-    ksd = [s_ for s_ in fn.body if isinstance(s_, ast.Assign) and isinstance(s_.value, ast.Call) and (m.resolve_call(fi, s_.value) or '').endswith('kspec_from_params')]
-    KS = u(ksd[0].targets[0]) if len(ksd) == 1 else 'kspec'
+
+    def kspec_kinds(e, depth=0):
+        """Where a k-mer parameter expression comes from, over every definition of the names involved: the explicit options
+        (kspec_from_params), a pre-computed source of this command (<sigs>.kmerspec), the default, or something else."""
+        if isinstance(e, ast.IfExp):
+            return kspec_kinds(e.body, depth) | kspec_kinds(e.orelse, depth)
+        if isinstance(e, ast.Call) and (m.resolve_call(fi, e) or '').endswith('kspec_from_params'):
+            return {'options'}
+        if m.resolve(fi.module, e) == 'gambit.kmers.DEFAULT_KMERSPEC':
+            return {'default'}
+        if isinstance(e, ast.Attribute) and e.attr == 'kmerspec' and u(e.value) in (q_sigs, r_sigs):
+            return {'source'}
+        if isinstance(e, ast.Name) and depth < 6:
+            defs = assigns_to(fn, e.id)
+            out = set()
+            for d_ in defs:
+                v_ = def_value(d_)
+                out |= kspec_kinds(v_, depth + 1) if v_ is not None else {f'other: {u(d_)[:60]}'}
+            return out or {f'other: {e.id} (never assigned)'}
+        return {f'other: {u(e)[:60]}'}
     nbranches = 0
     for side, (ids, sigs, files) in sides.items():
         id_defs = [s for s in stmts_in(fn.body) if isinstance(s, ast.Assign) and any(ids in [u(e) for e in (t.elts if isinstance(t, ast.Tuple) else [t])] for t in s.targets)]
@@ -73,35 +201,32 @@ def check(ctx):
                 rep.add('G1', fi.site(s), f'{side} side from files: ids and files are the aligned pair of one get_sequence_files call on this side\'s options; no pre-computed signatures', okc and args == want and sig_none,
                         expected=f'{ids}, {files} = get_sequence_files({", ".join(want)}); {sigs} = None', found=(u(s), sig_none), stmt=f'{side} files branch')
             elif u(s.value) == f'{sigs}.ids':
-                # ids from the loaded object assigned in the same block
-                sdef = [x for x in blk if isinstance(x, ast.Assign) and u(x.targets[0]) == sigs and x.lineno < s.lineno]
-                oks = len(sdef) == 1
-                rep.add('G1', fi.site(s), f'{side} side from signatures: ids are the stored ids of the very object assigned in this branch', oks, expected=f'{sigs} = <source>; {ids} = {sigs}.ids', found=[u(x) for x in sdef],
-                        stmt=f'{side} sigs branch @{u(sdef[0].value)[:30] if sdef else "?"}')
+                # the labels are read off the object `sigs` names at this point: they stay index-aligned with the matrix operand iff `sigs`
+                # is bound here and still names that object at the sink (a later rebinding under `sigs is None` cannot execute: .ids was read)
+                before = reaching_def(fn, sigs, s)
+                rebound = [x for x in assigns_to(fn, sigs) if comes_after(fn, s, x) and not none_guarded_rebinding(fn, s, x, sigs)]
+                srcs = [x for x in assigns_to(fn, sigs) if comes_after(fn, x, s) and def_value(x) is not None and not is_none(def_value(x))]
+                rep.add('G1', fi.site(s), f'{side} side from signatures: ids are the stored ids of the very object that is this side\'s matrix operand', before not in (None, PARAM) and not rebound,
+                        expected=f'{sigs} = <source>; {ids} = {sigs}.ids; {sigs} not rebound afterwards', found=dict(bound_before=u(before) if isinstance(before, ast.AST) else before, rebound_after=[u(x) for x in rebound]),
+                        stmt=f'{side} sigs branch @{" | ".join(sorted(u(x.value)[:30] for x in srcs)) or "?"}')
             elif side == 'ref' and u(s.value) == q_ids:
                 at = path_atoms(gm[s])
                 rep.add('G1', fi.site(s), 'square mode labels the columns with the query ids', ('true', 'square') in at, expected='ref_ids = query_ids under square', found=sorted(at), stmt='square ids')
             else:
                 rep.add('G1', fi.site(s), f'{side} ids come from this side\'s own source', False, expected=f'{sigs}.ids | get_sequence_files | query_ids (square)', found=u(s), stmt=f'{side} ids other')
     rep.floor('G1', 'id-assignment branches', nbranches, 5)
-    loads = {}
-    for s in stmts_in(fn.body):
-        if isinstance(s, ast.Assign) and isinstance(s.value, ast.Call) and (m.resolve_call(fi, s.value) or '').endswith('load_signatures'):
-            loads[u(s.targets[0])] = [u(a) for a in s.value.args]
-    if q_sigs not in loads or r_sigs not in loads:
-        # loading may be wrapped in a helper: accept any call whose first argument is the side's own click option
-        for s in stmts_in(fn.body):
-            if isinstance(s, ast.Assign) and isinstance(s.value, ast.Call) and u(s.targets[0]) in (q_sigs, r_sigs) and s.value.args and u(s.value.args[0]) in ('qs', 'rs'):
-                loads.setdefault(u(s.targets[0]), [u(s.value.args[0])])
-    rep.require(q_sigs in loads and r_sigs in loads, 'dist_cmd: cannot find where the signature-file options are loaded')
     rep.add('G1', fi.site(), 'each side loads its own signature file option', loads.get(q_sigs) == ['qs'] and loads.get(r_sigs) == ['rs'], expected={q_sigs: ['qs'], r_sigs: ['rs']}, found=loads, stmt='signature file options')
     ctx_aliases = {'ctx.obj'} | {u(x.targets[0]) for x in stmts_in(fn.body) if isinstance(x, ast.Assign) and u(x.value) == 'ctx.obj'}
     dbs = [s for s in stmts_in(fn.body) if isinstance(s, ast.Assign) and u(s.targets[0]) == r_sigs and u(s.value) in {f'{a}.signatures' for a in ctx_aliases}]
-    rep.add('G1', fi.site(dbs[0] if dbs else None), "--use-db takes the database's signatures as references", len(dbs) == 1 and ('true', 'use_db') in path_atoms(gm[dbs[0]]), expected='ref_sigs = ctx.obj.signatures under use_db',
-            found=[u(x) for x in dbs], stmt='use_db source')
+    # the guard may be reached by elimination (`if rs is not None or use_db:` ... `if rs is None:`); the tested options are never rebound
+    db_at = implied_atoms(gm[dbs[0]]) if len(dbs) == 1 else set()
+    stale = [n for t, _ in (gm[dbs[0]] if len(dbs) == 1 else ()) for n in sorted({x.id for x in ast.walk(t) if isinstance(x, ast.Name)}) if n != r_sigs and assigns_to(fn, n)]
+    rep.add('G1', fi.site(dbs[0] if dbs else None), "--use-db takes the database's signatures as references", len(dbs) == 1 and ('true', 'use_db') in db_at and not stale, expected='ref_sigs = ctx.obj.signatures under use_db',
+            found=([u(x) for x in dbs], sorted(db_at), stale), stmt='use_db source')
     # ---- G3: computed signatures
     calcs = [s for s in stmts_in(fn.body) if isinstance(s, ast.Assign) and isinstance(s.value, ast.Call) and (m.resolve_call(fi, s.value) or '').endswith('calc_file_signatures')]
     rep.floor('G3', 'calc_file_signatures sites in dist_cmd', len(calcs), 2)
+    kargs = set()
     for s in calcs:
         side = 'query' if u(s.targets[0]) == q_sigs else 'ref' if u(s.targets[0]) == r_sigs else None
         rep.require(side is not None, f'dist_cmd: computed signatures assigned to {u(s.targets[0])}')
@@ -116,9 +241,16 @@ def check(ctx):
             if len(nn) == 1 and isinstance(nn[0].value, ast.Call) and m.resolve_call(fi, nn[0].value) == 'gambit.cli.common.get_sequence_files':
                 root = f'gambit.cli.common.get_sequence_files({", ".join(u(a) for a in nn[0].value.args)})@{nn[0].lineno}'
         at = path_atoms(gm[s])
+        # "the reconciled parameters": one variable for both sides, every definition of which is the explicit options, the parameters of a
+        # pre-computed source or the default (that the choice among them is the right one on every option path is P1/P2 below)
+        karg = get_arg(s.value, 0, 'kmerspec')
+        kinds = kspec_kinds(karg) if isinstance(karg, ast.AST) else {'other: no parameter argument'}
+        unknown = sorted(k_ for k_ in kinds if k_.startswith('other'))
+        rep.require(not unknown or 'options' not in kinds, f'dist_cmd: k-mer parameters of the computed {side} signatures have a definition outside the vocabulary ({unknown[0] if unknown else ""})')
+        kargs.add(u(karg))
         rep.add('G3', fi.site(s), f'{side} signatures are computed from this side\'s files (in file order), only when not pre-computed, with the reconciled parameters',
-                root.startswith('gambit.cli.common.get_sequence_files(') and ('is', 'None', sigs) in at and u(s.value.args[0]) == KS, expected=f'{sigs} = calc_file_signatures(kspec, <{files}>) under {sigs} is None',
-                found=(root, sorted(at), u(s.value.args[0])), stmt=f'{side} computed')
+                root.startswith('gambit.cli.common.get_sequence_files(') and ('is', 'None', sigs) in at and 'options' in kinds and not unknown and len(kargs) == 1,
+                expected=f'{sigs} = calc_file_signatures(kspec, <{files}>) under {sigs} is None', found=(root, sorted(at), u(karg), sorted(kinds)), stmt=f'{side} computed')
         idd = [x for x in stmts_in(fn.body) if isinstance(x, ast.Assign) and isinstance(x.targets[0], ast.Tuple) and ids in [u(e) for e in x.targets[0].elts]]
         same = idd and root == f'gambit.cli.common.get_sequence_files({", ".join(u(a) for a in idd[0].value.args)})@{idd[0].lineno}'
         rep.add('G3', fi.site(s), f'{side} labels and {side} signatures descend from the same get_sequence_files call', bool(same), expected='same call', found=root, stmt=f'{side} label/signature alignment')
@@ -138,7 +270,11 @@ def check(ctx):
     rows = [c for c in calls_in(fw.node) if callee_attr(c) == 'writerow']
     rep.add('G4', fw.site(wr[0] if wr else None), 'cells go through csv.writer (labels with commas/quotes stay parseable)', len(wr) == 1 and all(u(c.func.value) == u(wr[0].targets[0]) for c in rows) and len(rows) == 2, expected='csv.writer(...).writerow x2',
             found=[u(c)[:50] for c in rows], stmt='csv writer')
-    hdr = next((c for c in rows if not any(isinstance(o, ast.For) for (_, _, o) in block_path(fw.node, next(s for s in stmts_in(fw.node.body) if isinstance(s, ast.Expr) and s.value is c)))), None)
+    def in_loop(c):
+        st_ = next((s for s in stmts_in(fw.node.body) if any(x is c for x in ast.walk(s)) and not isinstance(s, (ast.For, ast.While, ast.If, ast.With, ast.Try))), None)
+        rep.require(st_ is not None, f'dump_dmat_csv: cannot locate the statement of {u(c)[:50]}')
+        return any(isinstance(o, ast.For) for (_, _, o) in block_path(fw.node, st_))
+    hdr = next((c for c in rows if not in_loop(c)), None)
     okh = hdr is not None and isinstance(hdr.args[0], ast.List) and len(hdr.args[0].elts) == 2 and isinstance(hdr.args[0].elts[1], ast.Starred) and u(hdr.args[0].elts[1].value) == f'map(str, {p[3]})'
     rep.add('G4', fw.site(hdr), 'header = corner cell followed by the column ids in order', okh, expected=f"[corner or '', *map(str, {p[3]})]", found=u(hdr.args[0]) if hdr is not None else None, stmt='header')
     loops = [s for s in stmts_in(fw.node.body) if isinstance(s, ast.For)]
@@ -174,6 +310,11 @@ from ..variants import V  # noqa: E402
 
 _D = 'src/gambit/cli/dist.py'
 _C = 'src/gambit/cluster.py'
+_RSDB = "\tif rs is not None:\n\t\tref_sigs = load_signatures(rs)\n\t\tref_ids = ref_sigs.ids\n\t\tref_files = None\n\telif use_db:\n\t\tctxobj = ctx.obj  # type: common.CLIContext\n\t\tctxobj.require_signatures()\n\t\tref_sigs = ctxobj.signatures\n\t\tref_ids = ref_sigs.ids\n\t\tref_files = None\n"
+_MERGED = "\tif rs is not None or use_db:\n\t\tif rs is not None:\n\t\t\tref_sigs = load_signatures(rs)\n\t\telse:\n\t\t\tctxobj = ctx.obj\n\t\t\tctxobj.require_signatures()\n\t\t\tref_sigs = ctxobj.signatures\n\t\tref_ids = ref_sigs.ids\n\t\tref_files = None\n"
+_CALC = "ref_sigfiles = SequenceFile.from_paths(ref_files, 'fasta', 'auto')\nTABSref_pconf = progress_config('click', desc='Calculating reference genome signatures') if len(ref_files) > 1 else None\nTABSref_sigs = calc_file_signatures(kspec, ref_sigfiles, progress=ref_pconf)\n"
+_MODE = "\tif square:\n\t\tdmat = jaccarddist_pairwise(query_sigs, progress=dist_pconf)\n\n\telse:\n\t\tif ref_sigs is None:\n\t\t\t" + _CALC.replace('TABS', '\t\t\t') + "\n\t\tdmat = jaccarddist_matrix(query_sigs, ref_sigs, progress=dist_pconf)\n"
+_HOIST = "\tif ref_sigs is None and not square:\n\t\t" + _CALC.replace('TABS', '\t\t') + "\n"
 VARIANTS = [
     V('label arguments swapped', 'B', _D, "dump_dmat_csv(output, dmat, query_ids, ref_ids)", "dump_dmat_csv(output, dmat, ref_ids, query_ids)", 'G2'),
     V('matrix operands swapped', 'B', _D, "dmat = jaccarddist_matrix(query_sigs, ref_sigs, progress=dist_pconf)", "dmat = jaccarddist_matrix(ref_sigs, query_sigs, progress=dist_pconf)", 'G2'),
@@ -191,4 +332,15 @@ VARIANTS = [
       "\telif len(query) == 0:\n\t\tout[:] = 1\n\n\telse:\n\t\tfor i, ref in enumerate(refs):\n\t\t\tref = _cast_sigs_array(ref)", 'B1'),
     V('default parameters chosen by the option, not by the loaded signatures (seeded C16b)', 'B', _D, "\t\telif ref_sigs is not None:\n\t\t\tkspec = ref_sigs.kmerspec", "\t\telif rs is not None:\n\t\t\tkspec = ref_sigs.kmerspec", 'P1'),
     V('E: keyword arguments to the writer', 'E', _D, "dump_dmat_csv(output, dmat, query_ids, ref_ids)", "dump_dmat_csv(output, dmat, row_ids=query_ids, col_ids=ref_ids)"),
+    # ---- idioms accepted since the refactoring round, each with its broken twin
+    V('E: --rs / --use-db arms merged, source chosen by a nested if, ids read once', 'E', _D, _RSDB, _MERGED),
+    V('merged arms also entered for --square: database signatures used without --use-db', 'B', _D, _RSDB, _MERGED.replace("if rs is not None or use_db:", "if rs is not None or use_db or square:"), 'G1'),
+    V('merged arms: reference signatures reordered after their labels were read', 'B', _D, _RSDB, _MERGED.replace("\t\tref_files = None\n", "\t\tref_files = None\n\t\tref_sigs = ref_sigs[::-1]\n"), 'G1'),
+    V('E: options parsed into a temporary that is copied into the reconciled variable', 'E', _D, "\tkspec = common.kspec_from_params(k, prefix)\n", "\tcli_kspec = common.kspec_from_params(k, prefix)\n\tkspec = cli_kspec\n"),
+    V('reference signatures computed with the default parameters, explicit options ignored', 'B', _D, "ref_sigs = calc_file_signatures(kspec, ref_sigfiles, progress=ref_pconf)", "ref_sigs = calc_file_signatures(DEFAULT_KMERSPEC, ref_sigfiles, progress=ref_pconf)", 'G3',
+      also=[(_D, "\tkspec = common.kspec_from_params(k, prefix)\n", "\tcli_kspec = common.kspec_from_params(k, prefix)\n\tkspec = cli_kspec\n")]),
+    V('E: reference signatures computed before the mode switch; matrix chosen by a conditional expression', 'E', _D, _MODE, _HOIST + "\tdmat = jaccarddist_pairwise(query_sigs, progress=dist_pconf) if square else jaccarddist_matrix(query_sigs, ref_sigs, progress=dist_pconf)\n"),
+    V('conditional expression with the modes swapped', 'B', _D, _MODE, _HOIST + "\tdmat = jaccarddist_matrix(query_sigs, ref_sigs, progress=dist_pconf) if square else jaccarddist_pairwise(query_sigs, progress=dist_pconf)\n", 'G2'),
+    V('E: label variables renamed (no rule may depend on what the locals are called)', 'E', _D, "query_ids", "names_a", count=7),
+    V('E: signature variables renamed', 'E', _D, "ref_sigs", "sigs_b", count=18),
 ]
